@@ -265,8 +265,8 @@ def run(ctx):
         env["VERIF_REPLAY"] = os.path.abspath(ctx.replay)
     else:
         env["VERIF_CORPUS"] = os.path.join(ROOT, "harness", "corpus", "C14")
-        env["VERIF_HISTS"] = 3000 if ctx.thorough else 110
-        env["VERIF_BASES"] = 130 if ctx.thorough else 10
+        env["VERIF_HISTS"] = 2400 if ctx.thorough else 110
+        env["VERIF_BASES"] = 90 if ctx.thorough else 10
         env["VERIF_MAXVAR"] = 500 if ctx.thorough else 46
     rc, log, out = ctx.run_harness(binary, "TestVerifC14", env, timeout=3000)
     if rc != 0:
